@@ -111,6 +111,9 @@ Definition outcome_code (o : outcome) : N :=
   match o with Yes => 89 | No => 78 | OutOfFuel => 79 end.       (* Y N O *)
 Definition bit_code (b : bool) : N := if b then 49 else 48.
 
-(* "<acyclic> <outcome of chase_seq with fuel |e|+1> <hex calls>" *)
+(* "<acyclic> <outcome of chase_seq with fuel |e|+1, or ? when the model itself would need more
+   than 2^20 calls> <hex calls>" *)
 Definition chase_report (hits : list (list name)) (e : env) (n : name) : list N :=
-  [bit_code (acyclic_alias e); 32; outcome_code (chase_seq hits (chase_fuel e) e n); 32] ++ hexN (calls e n).
+  let c := calls e n in
+  [bit_code (acyclic_alias e); 32;
+   (if c <=? 1048576 then outcome_code (chase_seq hits (chase_fuel e) e n) else 63); 32] ++ hexN c.
